@@ -453,6 +453,7 @@ class Stmts:
 
     def _inv(self, spec, n, entry, st, lv):
         """The contract's invariant for loop #n; an invariant that names a local the code no longer has cannot be applied (UNDECIDED, not a crash)."""
+        lv = dict(lv, outer=dict(getattr(self, "_loop_ks", {})))  # counters of the enclosing cut loops: {loop ordinal: k}
         try:
             return spec.inv(n, entry, st, self.a_stack[-1], lv)
         except KeyError as e:
@@ -520,7 +521,15 @@ class Stmts:
                     else:
                         outs.append(o0)
             for b0 in starts:
-                for o in self.exec_block(s.body, b0):
+                if not hasattr(self, "_loop_ks"):
+                    self._loop_ks = {}
+                if kind == "for":
+                    self._loop_ks[n] = k
+                try:
+                    body_outs = self.exec_block(s.body, b0)
+                finally:
+                    self._loop_ks.pop(n, None)
+                for o in body_outs:
                     if o.kind in ("normal", "continue"):
                         lv2 = dict(lv)
                         if kind == "for":
